@@ -11,7 +11,7 @@ from .asyncchecks import _graphs, _hist_run, _hist_step
 ALL_MODES = [["mcs", True], ["mcs", False], ["gen", True], ["gen", False], ["topo", True], ["topo", False]]
 
 RUN_CLAUSE_PROPS = {
-    "ExactlyOnce_Seq": {"C06", "C07"}, "ExactlyOnce_MissingExecution": {"C06"}, "ExactlyOnce_WrongStep": {"C06", "C07"},
+    "ExactlyOnce_Seq": {"C06", "C07"}, "ExactlyOnce_MaskedSupervisorSlot": {"C06", "C07"}, "ExactlyOnce_MissingExecution": {"C06"}, "ExactlyOnce_WrongStep": {"C06", "C07"},
     "ExactlyOnce_ExtraExecution": {"C06"},
     "StepEps": {"C09", "C01"}, "StepTs": {"C01", "C07", "C09"}, "StepParams": {"C09", "C01"}, "StepState": {"C01", "C09", "C13"},
     "StepRng": {"C01", "C09"}, "WindowAsScheduled": {"C01", "C08", "C07"}, "ReadsRing": {"C08", "C01"}, "ScheduledPayload": {"C08", "C01"},
@@ -332,7 +332,9 @@ def c06_compiled(rep, tier, seed):
     quick = tier == "quick"
 
     def runs_of(i, rng):
-        return [dict(eps=0, history=["rollout:99"], jit=True), dict(eps=1, history=["reset", "step", "stepo", "step", "stepo"], jit=True),
+        # every stacked episode is rolled out over the whole compiled horizon (episodes have unequal lengths: the shorter ones must stay masked)
+        return [dict(eps=0, history=["rollout:99"], jit=True), dict(eps=1, history=["rollout:99"], jit=True), dict(eps=2, history=["rollout:99"], jit=True),
+                dict(eps=1, history=["reset", "step", "stepo", "step", "stepo"], jit=True),
                 dict(eps=0, history=["run", "run"], jit=False)]
 
     def modes_of(i):
